@@ -500,6 +500,19 @@ pub fn c11(tier: Tier) -> ! {
             let p = Params { length: 4. + 0.37 * t, ratio: 1. / (1. + 0.13 * t), angle: if ita_family(g) == "Monoclinic" { PI / 2. - 0.02 * t } else { PI / 2. }, x: wrap_half(0.1 * t / 3.), y: wrap_half(-0.07 * t), phi: 0.1 * t * PI / 3. };
             states.push(AnyState::from_json(&tpl.with(&p)).unwrap());
         }
+        // copies exactly on cell faces and symmetry elements (what bound clamping produces)
+        for &(x, y) in [(0.5, 0.5), (-0.5, 0.2), (0.3, -0.5), (0., 0.), (0.25, 0.25), (0., 0.5)].iter() {
+            let p = Params { length: 6.5, ratio: 0.75, angle: PI / 2., x, y, phi: 0.5 };
+            states.push(AnyState::from_json(&tpl.with(&p)).unwrap());
+        }
+        // two occupied sites (same letter, as every constructor labels them)
+        {
+            let p = Params { length: 9., ratio: 0.8, angle: PI / 2., x: 0.125, y: -0.25, phi: 0.75 };
+            let general = wyckoff_json(g);
+            let ident = wyckoff_json("p1");
+            states.push(AnyState::from_json(&with_second_site(&tpl.with(&p), &general, -0.375, 0.3125, 2.)).unwrap());
+            states.push(AnyState::from_json(&with_second_site(&tpl.with(&p), &ident, 0.4375, 0.0625, 1.)).unwrap());
+        }
         let (mut n, mut ok, mut fp, mut svgs) = (0u64, 0u64, 0u64, 0u64);
         let mut broken: Vec<(String, Value)> = vec![];
         for st in states.iter() {
